@@ -1066,8 +1066,10 @@ fn main() {
 
     // 7. random rounds
     let rounds = ctx.scale(8, 12_000, 150_000);
-    for _ in 0..rounds {
-        for order in Order::ALL {
+    for round in 0..rounds {
+        for i in 0..4 {
+            // rotate so that every shard sees every order
+            let order = Order::ALL[(i + round) % 4];
             ctx.case(order.name(), "random", "list", |c| {
                 let content = Content::ALL[c.rng().random_range(0..Content::ALL.len())];
                 let nmax = if small { 12 } else { 160 };
